@@ -113,7 +113,6 @@ def frexp(x: fp.Float, ctx: fp.Context) -> tuple[fp.Float, fp.Float]:
         e = ctx.round(fp.Float.zero(), exact=True)
         return m, e
     else:
-        x = x.normalize()
         m = ctx.round(fp.RealFloat(s=x.s, e=0, c=x.c), exact=True)
         e = ctx.round(x.e, exact=True)
         return m, e
